@@ -10,7 +10,12 @@
     the measured register, the register size and the printed precision of every angle.
 (I) import, REPLAY+REL: QasmGen.tla enumerates abstract OpenQASM 3 programs of the supported subset (all one-statement
     programs exhaustively, long ones by simulation); the harness renders each to text, imports it with qp.from_qasm3,
-    records the imported tape, and Trace_Qasm.tla decides  U(imported tape) = denotation of the program."""
+    records the imported tape, and Trace_Qasm.tla decides  U(imported tape) = denotation of the program.
+(S) import HISTORIES, REPLAY+REL: QasmSession.tla generates sessions of from_qasm3 calls in one process (Import(program, wire_map)
+    / Call(handle) interleaved; the same program text imported again under other wire_maps with the same keys, with no wire_map,
+    handles called repeatedly and after later imports) with the expected (program, placement) of every Call; the harness replays
+    each session in this process and Trace_Qasm.tla decides per Call  U(recorded tape) = denotation of the program with its
+    qubits placed by the wire_map of the Import that returned the handle."""
 import itertools
 import random
 
@@ -28,7 +33,9 @@ M_FINE = 5       # thorough tier: decomposed gates on the finer lattice k*pi/8
 N = 1 << M
 PID = "C67"
 # sizes per tier: random export circuits; simulated import programs (3 qubits x 6 statements, 2 qubits x 9 statements)
-SIZES = {"quick": {"export": 280, "sim": 110, "sim2": 0}, "thorough": {"export": 4000, "sim": 1500, "sim2": 600}}
+SIZES = {"quick": {"export": 280, "sim": 110, "sim2": 0, "sessions": 28}, "thorough": {"export": 4000, "sim": 1500, "sim2": 600, "sessions": 400}}
+SESSION = {"NP": 2, "NQ": 2, "NW": 3, "MaxImp": 3, "MaxSteps": 6}      # QasmSession.tla constants
+SESSION_LABELS = [["a", "b", "c"], [5, 0, "x"], [2, 1, 0], [0, 1, 2]]   # wire labels of the shared register
 
 NATIVE0 = ["PauliX", "PauliY", "PauliZ", "Hadamard", "S", "T", "Identity", "CNOT", "CZ", "SWAP", "Toffoli", "CSWAP"]
 NATIVE_ADJ = ["S", "T"]
@@ -270,6 +277,22 @@ def run_generator(tier, seed):
     return progs, st
 
 
+def run_sessions(tier, seed):
+    """-> (sessions of QasmSession.tla, pool of abstract 2-qubit programs of QasmGen.tla, TLC stats)"""
+    ns = SIZES[tier]["sessions"]
+    r = lib.run_tlc("QasmSession", lib.cfg(constants=SESSION, invariants=["WellFormed"]), lib.workdir(PID, "gen_session"),
+                    simulate=f"num={ns}", depth=4 * SESSION["MaxSteps"] + 8, seed=seed + 23, workers=1)
+    lib.require_ok(r, "QasmSession")
+    consts = dict(NQ=SESSION["NQ"], Ang1="{1, 3, 6, 10, 13, 15}", Ang2="{1, 3, 6, 13}", NTup=4, MaxLen=4, MaxAnc=1,
+                  Kinds='{"gate", "meas", "reset", "cond", "ifelse"}', Depth2="FALSE", M=3)
+    g = lib.run_tlc("QasmGen", lib.cfg(constants=consts, invariants=["WellFormed"]), lib.workdir(PID, "gen_pool"),
+                    simulate=f"num={SESSION['NP'] * ns}", depth=12 * consts["MaxLen"] + 12, seed=seed + 29, workers=1)
+    lib.require_ok(g, "QasmGen pool")
+    if len(g.json_lines) < SESSION["NP"] * len(r.json_lines) or not r.json_lines:
+        raise lib.MachineryError(f"session generator: {len(r.json_lines)} sessions, {len(g.json_lines)} programs")
+    return r.json_lines, g.json_lines, {"generated": r.generated + g.generated, "distinct": r.distinct + g.distinct}
+
+
 def self_check(tier):
     """QelibSelf: the table against the qelib1.inc / stdgates.inc definitions (quick: level 4, thorough: level 5)"""
     m, grid = (M, "{2, 6, 12}") if tier == "quick" else (M_FINE, "{0, 2, 6, 12, 22, 28}")
@@ -328,7 +351,7 @@ def run(tier, seed):
         counts["export_wires_arg"] += c["wires"] is not None
         counts["export_precision"] += c["precision"] is not None
         cases.append({"n": nreg, "k": max(k, kp), "a": a, "b": b, "rel": "diag" if c["rotations"] else "phase",
-                      "nq": rd["qreg"][1] if rd["qreg"] else 0, "enq": nreg, "mp": mp, "me": me, "ncreg": rd["cregs"].get("c", 0)})
+                      "nq": rd["qreg"][1] if rd["qreg"] else 0, "enq": nreg, "mp": mp, "me": me, "ncreg": rd["cregs"].get("c", 0), "pl": []})
         meta.append(("export", c, text))
         level.append(c["M"])
         texts.add(text)
@@ -361,14 +384,68 @@ def run(tier, seed):
                                   detail=f"from_qasm3 raised {type(e).__name__}: {e} on\n{text}", replay={"program": text, "wire_map": wmap}))
             continue
         cases.append({"n": p["n"], "k": max(k, p["k"]), "a": a, "b": p["b"], "rel": "phase", "nq": p["n"], "enq": p["n"], "mp": [], "me": [],
-                      "ncreg": 0})
+                      "ncreg": 0, "pl": []})
         meta.append(("import", p, text, wmap, [str(o) for o in tape.operations]))
         level.append(M)
         texts.add(text)
         if p["mode"] != "ex1" and sum(1 for s in samples if s["direction"] == "import") < 2 and p["k"] > 0:
             samples.append({"direction": "import", "program": text.splitlines(), "wire_map": wmap, "imported_tape": [str(o) for o in tape.operations]})
+    # ------------------------------------------------------------------ import sessions (histories in this process)
+    sessions, pool, sstats = run_sessions(tier, seed)
+    counts.update({"session_imports": 0, "session_calls": 0, "session_reimport_other_map": 0, "session_repeated_calls": 0,
+                   "session_call_after_later_import": 0})
+    n_sessions = 0
+    for si, ses in enumerate(sessions):
+        progs_s = pool[SESSION["NP"] * si: SESSION["NP"] * (si + 1)]
+        rendered = [qasmio.render_qasm3(p, M, rng, layout="named") for p in progs_s]     # ONE text per program
+        labels = SESSION_LABELS[si % len(SESSION_LABELS)]
+        handles, imported, called, hist = {}, [], set(), []
+        n_sessions += 1
+        for e in ses["log"]:
+            p = progs_s[e["p"] - 1]
+            text, qn, _ = rendered[e["p"] - 1]
+            wmap = {qn[i]: labels[e["m"][i] - 1] for i in range(p["n"])} if e["m"] else None
+            hist.append(f"{e['op']}(h{e['h']}: program {e['p']}, wire_map={wmap})")
+            cls = "program"
+            try:
+                if e["op"] == "import":
+                    counts["session_imports"] += 1
+                    if any(q[0] == e["p"] and q[1] != e["m"] for q in imported):
+                        counts["session_reimport_other_map"] += 1
+                    imported.append((e["p"], e["m"]))
+                    handles[e["h"]] = qp.from_qasm3(text, wire_map=wmap)
+                    continue
+                counts["session_calls"] += 1
+                if e["h"] in called:
+                    counts["session_repeated_calls"] += 1
+                    cls = "repeated-call"
+                if any(q[0] == e["p"] and q[1] != e["m"] for q in imported):
+                    cls = "same-program-other-wire-map"
+                counts["session_call_after_later_import"] += len(imported) > e["h"]
+                called.add(e["h"])
+                tape = qp.tape.make_qscript(handles[e["h"]])()
+                wpos = {lab: i + 1 for i, lab in enumerate(labels)} if e["m"] else {q: i + 1 for i, q in enumerate(qn)}
+                a, k = qasmio.encode_tape(tape, wpos, M)
+            except OffLattice as ex:
+                raise lib.MachineryError(f"cannot encode the imported tape of\n{text}: {ex}")
+            except Exception as ex:
+                viol.append(Violation(key=f"import:session:raises:{type(ex).__name__}:{cls}",
+                                      detail=f"session {hist}: {type(ex).__name__}: {ex} on\n{text}", replay={"program": text, "session": hist}))
+                continue
+            nreg = len(labels) if e["m"] else p["n"]
+            cases.append({"n": nreg, "k": max(k, p["k"]), "a": a, "b": p["b"], "rel": "phase", "nq": nreg, "enq": nreg, "mp": [], "me": [],
+                          "ncreg": 0, "pl": e["m"]})
+            meta.append(("session", p, text, wmap, [str(o) for o in tape.operations], list(hist), cls))
+            level.append(M)
+            texts.add(text)
+            if cls == "same-program-other-wire-map" and sum(1 for s_ in samples if s_["direction"] == "import-session") < 1:
+                samples.append({"direction": "import-session", "program": text.splitlines(), "session": list(hist),
+                                "tape_of_last_call": [str(o) for o in tape.operations]})
+    if counts["session_reimport_other_map"] < 3 or counts["session_repeated_calls"] < 3:
+        raise lib.MachineryError(f"sessions are vacuous: {counts}")
     # ------------------------------------------------------------------ negative controls
     neg = {}
+    nreal = len(cases)
     step = max(1, len(cases) // 24)
     for j, k0 in enumerate(range(0, len(cases), step)):
         c = cases[k0]
@@ -396,6 +473,18 @@ def run(tier, seed):
         cases.append(bad)
         meta.append(("NEG",))
         level.append(level[k0])
+    # a placement other than the wire_map of the Import must be rejected (unless the program is symmetric under it: `want` = None)
+    npl, pl_controls = 0, set()
+    for k0, m_ in enumerate(meta[:nreal]):
+        if m_[0] == "session" and cases[k0]["pl"] and npl < 6:
+            npl += 1
+            pl = cases[k0]["pl"]
+            other = [w for w in range(1, SESSION["NW"] + 1) if w not in pl]
+            neg[len(cases)] = (k0, None)
+            pl_controls.add(len(cases))
+            cases.append(dict(cases[k0], pl=[other[0]] + pl[1:]))
+            meta.append(("NEG",))
+            level.append(level[k0])
     # ------------------------------------------------------------------ TLC decides
     import json
     verdict, tr_gen, tr_dist = {}, 0, 0
@@ -412,21 +501,26 @@ def run(tier, seed):
         tr_dist += r.distinct
     if len(verdict) != len(cases):
         raise lib.MachineryError(f"verdicts are not total: {len(verdict)} of {len(cases)}")
-    nneg = 0
+    nneg, npl_rej = 0, 0
     for ti, (base, want) in neg.items():
         if verdict[base] != "ok":
             continue                    # the corrupted copy of a failing case proves nothing
+        if ti in pl_controls:
+            npl_rej += verdict[ti] == "not-equal-up-to-phase"
+            continue
         if verdict[ti] == "ok" or (want and verdict[ti] not in want):
             raise lib.MachineryError(f"negative control {ti} got verdict {verdict[ti]}, wanted {want}")
         nneg += 1
     if nneg < 5:
         raise lib.MachineryError(f"only {nneg} negative controls")
+    if pl_controls and all(verdict[neg[ti][0]] == "ok" for ti in pl_controls) and npl_rej < 1:
+        raise lib.MachineryError("no wrong placement was rejected by Trace_Qasm")
     # failing single-statement signatures give the multi-statement failures a specific key
     bad_single = set()
     for ti, m in enumerate(meta):
         if m[0] == "import" and verdict[ti] != "ok" and len(m[1]["b"]) == 1:
             bad_single.add(sig_stmt(m[1]["b"][0]))
-    n_ok = {"export": 0, "import": 0}
+    n_ok = {"export": 0, "import": 0, "session": 0}
     for ti, m in enumerate(meta):
         if m[0] == "NEG":
             continue
@@ -449,6 +543,13 @@ def run(tier, seed):
                                                   f"precision={c['precision']}) of labels {c['labels']} circuit {c['circ']} measurements {c['meas']}: "
                                                   f"TLC verdict {v}; expected measured positions {cases[ti]['me']}, program:\n{text}",
                                   replay={"case": c, "program": text, "tlc_case": cases[ti]}))
+        elif m[0] == "session":
+            # a statement class that already fails when imported alone keeps its statement-level key
+            hit = [s_ for s_ in (sig_stmt(i) for i in m[1]["b"]) if s_ in bad_single]
+            viol.append(Violation(key=f"import:{v}:{hit[0]}" if hit else f"import:session:{v}:{m[6]}",
+                                  detail=f"session of from_qasm3 calls {m[5]}: the last call recorded {m[4]} for\n{m[2]}"
+                                         f"(wire_map={m[3]}, expected placement {cases[ti]['pl']} in the register): TLC verdict {v}",
+                                  replay={"program": m[2], "session": m[5], "imported": m[4], "tlc_case": cases[ti]}))
         else:
             p, text = m[1], m[2]
             sg = [sig_stmt(i) for i in p["b"]]
@@ -456,15 +557,19 @@ def run(tier, seed):
             key = f"import:{v}:{hit[0] if hit else (sg[0] if len(sg) == 1 else 'program')}"
             viol.append(Violation(key=key, detail=f"from_qasm3 (wire_map={m[3]}) imported\n{text}as {m[4]}: TLC verdict {v}",
                                   replay={"program": text, "wire_map": m[3], "imported": m[4], "tlc_case": cases[ti]}))
-    cov = {"states": tr_dist + gstats["distinct"] + tstats["distinct"], "transitions": tr_gen + gstats["generated"] + tstats["generated"],
+    cov = {"states": tr_dist + gstats["distinct"] + tstats["distinct"] + sstats["distinct"],
+           "transitions": tr_gen + gstats["generated"] + tstats["generated"] + sstats["generated"],
            "traces_validated_against_impl": n_export + (len(meta) - n_export - len(neg)), "evaluations": counts["export_calls"] + counts["import_calls"],
            "distinct_nontrivial": len(texts),
            "rule": "non-trivial = distinct program texts (exported or imported) that reached TLC's verdict; export: every exportable gate "
                    "name alone on all placements + seeded circuits (1-4 wires, 1-8 ops, wire labels, wires= orders/supersets, measure_all, "
                    "rotations, precision, mid-circuit measurement + conditionals, decomposed gates); import: every one-statement program "
-                   "of the grammar (name x modifier stack x placement x angles) + simulated 6-statement programs with measure/reset/if/else",
+                   "of the grammar (name x modifier stack x placement x angles) + simulated 6-statement programs with measure/reset/if/else; "
+                   "import sessions: sequences of from_qasm3 imports/calls in one process (same text under several wire_maps / none, repeated calls)",
            "samples": samples, "exhaustive": False, "exhaustive_part": "all one-statement programs of the import grammar; every exportable gate name x placement",
-           "export_validated": n_export, "export_ok": n_ok["export"], "import_validated": len(meta) - n_export - len(neg), "import_ok": n_ok["import"],
+           "export_validated": n_export, "export_ok": n_ok["export"], "import_validated": sum(1 for m_ in meta if m_[0] == "import"), "import_ok": n_ok["import"],
+           "sessions": n_sessions, "session_calls_validated": sum(1 for m_ in meta if m_[0] == "session"), "session_calls_ok": n_ok["session"],
+           "wrong_placement_controls_rejected": npl_rej,
            "generator": {k_: v_ for k_, v_ in gstats.items() if k_ not in ("generated", "distinct")},
            "table_cases_model_checked": tstats["table_cases"], "negative_controls_rejected": nneg + 1, "ring_level_M": M, **counts}
     return CheckResult(coverage=cov, violations=viol, assumptions=[
